@@ -768,6 +768,9 @@ func (fr *Frame) ret(x *ssa.Return, st *State, g string) {
 		env := fr.specEnv(st, fr.entry)
 		fr.bindResults(env, res)
 		for i, cl := range fr.spec.Ensures {
+			if !clauseActive(cl) { // ext_propfilter.go: a clause of another property is proved by that property's check
+				continue
+			}
 			t, err := env.evalBool(cl.E)
 			if err != nil {
 				fc.eng.stale(fr.spec, cl, err)
@@ -798,7 +801,7 @@ func (fr *Frame) applyHints(where, calleeKey string, b *ssa.BasicBlock, st *Stat
 	}
 	fc := fr.fc
 	for i, h := range fr.spec.Hints {
-		if h.Where != where {
+		if h.Where != where || !clauseActive(h.Clause) { // ext_propfilter.go
 			continue
 		}
 		if where == "after" && !(strings.HasSuffix(calleeKey, "."+h.Callee) || strings.HasSuffix(calleeKey, ")."+h.Callee) || calleeKey == h.Callee) {
@@ -836,7 +839,11 @@ func (fr *Frame) applyHints(where, calleeKey string, b *ssa.BasicBlock, st *Stat
 		if label == "" {
 			label = fmt.Sprint(i)
 		}
-		fc.oblige(fr, "hint", label, g, t, token.NoPos, h.Clause.Text, fr.props())
+		hprops := h.Clause.Props
+		if len(hprops) == 0 {
+			hprops = fr.props()
+		}
+		fc.oblige(fr, "hint", label, g, t, token.NoPos, h.Clause.Text, hprops)
 	}
 }
 
@@ -1159,6 +1166,9 @@ func valueBlock(v ssa.Value) *ssa.BasicBlock {
 func (fr *Frame) invariantsOf(li *loopInfo) []Clause {
 	if fr.spec == nil {
 		return nil
+	}
+	if fr.top {
+		return activeClauses(fr.spec.LoopInv[li.ordinal]) // ext_propfilter.go
 	}
 	return fr.spec.LoopInv[li.ordinal]
 }
